@@ -301,6 +301,9 @@ def gen_definition(rng, tzid, allow_inconsistent=False):
     if rng.random() < 0.3:
         rng.shuffle(obs)   # order of sub-components in the file is not significant
     defn = {"tzid": tzid, "obs": obs[:4]}
+    if with_names and len(defn["obs"]) > 1 and rng.random() < 0.15:
+        rng.choice(defn["obs"])["name"] = None      # TZNAME is optional per observance
+        meta["partly_named"] = True
     if rng.random() < 0.3:
         # what real producers add: properties that must not influence the zone
         defn["extras"] = rng.sample(["X-LIC-LOCATION:" + tzid.strip("/"), "LAST-MODIFIED:20200101T000000Z",
